@@ -127,7 +127,7 @@ func (k *poClient) Instr(s poState, in ssa.Instruction) (poState, bool, []poStat
 	case "popState", "onValue":
 		s.reported = true
 	case "pop":
-		if n := namedOf(sc.Signature.Recv().Type()); n != nil && n.Obj().Name() == "lengthStack" && s.reported {
+		if n := namedOf(sc.Signature.Recv().Type()); n != nil && core.TypeName(n) == "lengthStack" && s.reported {
 			k.bad = "pops the remaining-length stack at " + k.p.Pos(c.Pos()) + " after the completed value was already reported to the enclosing container (popState/onValue): the parent's bookkeeping ran against this value's own length entry"
 		}
 	}
@@ -247,11 +247,11 @@ func lostUpdate(p *core.Prog, r *core.Result, in map[string]bool) {
 				}
 				visit(a, 0)
 				pos := p.Pos(st.Pos())
-				fname := nt.Underlying().(*types.Struct).Field(fa.Field).Name()
+				fname := core.FieldName(nt.Underlying().(*types.Struct), fa.Field)
 				if read {
 					r.Ok(".LOST-UPDATE", pos, core.FuncKey(f)+": update of local copy is read afterwards")
 				} else {
-					r.Fail(".LOST-UPDATE", fmt.Sprintf("%s|%s.%s", core.FuncKey(f), nt.Obj().Name(), fname), pos, fmt.Sprintf("%s assigns field %s of a local COPY of a %s value and never reads the copy again: the update is lost (the original - parser state / map entry - was meant)", core.FuncKey(f), fname, nt.Obj().Name()), "")
+					r.Fail(".LOST-UPDATE", fmt.Sprintf("%s|%s.%s", core.FuncKey(f), core.TypeName(nt), fname), pos, fmt.Sprintf("%s assigns field %s of a local COPY of a %s value and never reads the copy again: the update is lost (the original - parser state / map entry - was meant)", core.FuncKey(f), fname, core.TypeName(nt)), "")
 				}
 			}
 		}
@@ -285,8 +285,8 @@ func stackInit(p *core.Prog, r *core.Result, in map[string]bool) {
 				if !ok {
 					continue
 				}
-				sf := fa.X.Type().Underlying().(*types.Pointer).Elem().Underlying().(*types.Struct).Field(fa.Field).Name()
-				df := src.X.Type().Underlying().(*types.Pointer).Elem().Underlying().(*types.Struct).Field(src.Field).Name()
+				sf := core.FieldName(fa.X.Type().Underlying().(*types.Pointer).Elem().Underlying().(*types.Struct), fa.Field)
+				df := core.FieldName(src.X.Type().Underlying().(*types.Pointer).Elem().Underlying().(*types.Struct), src.Field)
 				if sf != "stack" || df != "stack0" {
 					continue
 				}
@@ -528,7 +528,7 @@ func (k *sbClient) Instr(s sbState, in ssa.Instruction) (sbState, bool, []sbStat
 		return s, true, nil
 	}
 	n := namedOf(fa.X.Type())
-	if n == nil || n.Obj().Name() != "lengthStack" {
+	if n == nil || core.TypeName(n) != "lengthStack" {
 		return s, true, nil
 	}
 	bo, ok := st.Val.(*ssa.BinOp)
@@ -576,7 +576,7 @@ func stepBytesAccounting(p *core.Prog, r *core.Result) {
 			for _, in := range b.Instrs {
 				if st, ok := in.(*ssa.Store); ok {
 					if fa, ok := st.Addr.(*ssa.FieldAddr); ok {
-						if nn := namedOf(fa.X.Type()); nn != nil && nn.Obj().Name() == "lengthStack" {
+						if nn := namedOf(fa.X.Type()); nn != nil && core.TypeName(nn) == "lengthStack" {
 							if bo, ok := st.Val.(*ssa.BinOp); ok && bo.Op == token.SUB {
 								if _, isC := bo.Y.(*ssa.Const); !isC {
 									has = true
@@ -614,7 +614,7 @@ func collectClones(p *core.Prog, r *core.Result) {
 		fd := (*ast.FuncDecl)(nil)
 		for _, file := range pp.Syntax {
 			for _, d := range file.Decls {
-				if f, ok := d.(*ast.FuncDecl); ok && f.Name.Name == "collect" && f.Recv != nil {
+				if f, ok := d.(*ast.FuncDecl); ok && f.Name.Name == core.CurrentName(pk, "collect") && f.Recv != nil {
 					fd = f
 				}
 			}
@@ -794,10 +794,10 @@ func siblingArms(p *core.Prog, r *core.Result) {
 		r.Undecided(".SIBLING-ARMS", "cborl", err.Error())
 		return
 	}
-	sp := p.SPkgs["cborl"]
+	_ = p.SPkgs["cborl"]
 	ex := p.LookupFunc("cborl", "(*Parser).execStep")
 	cst := func(n string) (int64, bool) {
-		nc, _ := sp.Members[n].(*ssa.NamedConst)
+		nc := p.Const("cborl", n)
 		if nc == nil {
 			return 0, false
 		}
